@@ -1,9 +1,9 @@
 package main
 
 import (
-	"golang.org/x/tools/go/ssa"
 	"fmt"
 	"go/token"
+	"golang.org/x/tools/go/ssa"
 	"strings"
 )
 
@@ -25,11 +25,11 @@ var corePkgs = map[string]bool{"": true, "file": true, "internal": true}
 
 func c01Config() *EFConfig {
 	return &EFConfig{
-		Rule:  "R6-errflow-ack-cone",
-		Roots: []string{"(*ls.DB).SyncAndWait", "(*ls.DB).Sync", "(*ls.Replica).Sync", "(*ls.DB).Close", "(*ls.Store).SyncDB", "(*ls.Store).Close", "(*ls/file.ReplicaClient).WriteLTXFile"},
-		Pkgs:  corePkgs,
-		Retry: map[string]bool{"(*ls.DB).syncReplicaWithRetry|(*ls.Replica).Sync": true},
-		Skip:  map[string]string{"ls/internal.MkdirAll": "verbatim copy of os.MkdirAll (stat/mkdir/lstat races resolved as in the standard library)"},
+		Rule:       "R6-errflow-ack-cone",
+		Roots:      []string{"(*ls.DB).SyncAndWait", "(*ls.DB).Sync", "(*ls.Replica).Sync", "(*ls.DB).Close", "(*ls.Store).SyncDB", "(*ls.Store).Close", "(*ls/file.ReplicaClient).WriteLTXFile"},
+		Pkgs:       corePkgs,
+		Retry:      map[string]bool{"(*ls.DB).syncReplicaWithRetry|(*ls.Replica).Sync": true},
+		Skip:       map[string]string{"ls/internal.MkdirAll": "verbatim copy of os.MkdirAll (stat/mkdir/lstat races resolved as in the standard library)"},
 		Exceptions: ackExceptions,
 	}
 }
